@@ -1,6 +1,7 @@
 /-
 Props/C06.lean — each output element depends only on its own source, path index and observer.
 -/
+import MagpyVerif.Lemmas.KernCylSeg
 import MagpyVerif.Lemmas.TrimeshBatch
 import MagpyVerif.Lemmas.KernelLiterals
 import MagpyVerif.Lemmas.Polyline
@@ -318,5 +319,39 @@ theorem polyline_branches_agree {α : Type} [Kern.Num α] (f : Kern.Field) (n1 :
     (h : ∀ i ∈ insts, i.verts.length = n1) :
     Kern.verticesFieldEqual f n1 insts = Kern.verticesFieldRagged f insts := by
   rw [Kern.verticesFieldEqual_rowwise f n1 insts h, Kern.verticesFieldRagged_rowwise]
+
+end MagpyVerif.C06
+
+/-! ### CylinderSegment: the case dispatch is total up to the four listed NaN ids -/
+namespace MagpyVerif.C06
+open MagpyVerif MagpyVerif.Kern MagpyVerif.Kern.CylSeg
+
+/- FULL (false of the code): every id `determine_cases` returns is one of the 26 ids of the dispatch table.
+The ids 111, 114, 121, 131 are returned (witness `determineCases_returns_111`) and are not in the table —
+the source says so itself ("excluding the nan-cases 111, 114, 121, 131"); the block then stays NaN. -/
+/-- for ALL inputs and any carrier (ℝ, Float, …; whatever the eight `close` tests answer): the id is one of the
+26 handled ids or one of the four nan-ids — no other number can come out, so the dispatch never meets an id it
+does not know -/
+theorem determineCases_total_partial {α : Type} [NumX α] (r phi z r1 phi1 z1 : α) :
+    determine_cases r phi z r1 phi1 z1 ∈ caseIds ∨ determine_cases r phi z r1 phi1 z1 ∈ nanIds :=
+  determineCases_range r phi z r1 phi1 z1
+
+/-- the dispatch falls through exactly for the nan-ids, and those occur exactly when the observer is at the height
+of the boundary plane and either on the axis of a segment without bore or on the boundary radius in the boundary
+half-plane -/
+theorem dispatch_falls_through_iff {α : Type} [NumX α] (r phi z r1 phi1 z1 : α) (a : AllArgs α) :
+    (caseDispatch (determine_cases r phi z r1 phi1 z1) a = none ↔ determine_cases r phi z r1 phi1 z1 ∈ nanIds) ∧
+    (determine_cases r phi z r1 phi1 z1 ∈ nanIds ↔
+      (close z z1 &&
+        ((close r (n 0) && close r1 (n 0)) ||
+         ((close (NumX.pymod (Num.abs (phi - phi1)) (n 2 * Num.pi)) (n 0) ||
+            close (NumX.pymod (Num.abs (phi - phi1)) (n 2 * Num.pi)) (n 2 * Num.pi)) &&
+           close r r1 && !close r1 (n 0) && !close r (n 0)))) = true) :=
+  ⟨caseDispatch_eq_none_iff r phi z r1 phi1 z1 a, determineCases_unhandled_iff r phi z r1 phi1 z1⟩
+
+/-- witness that the exclusion is necessary: on the axis (r = r_i = 0) at z = z_k, phi = phi_j the id is 111 -/
+theorem determineCases_returns_111 (μ : ℝ) (S : SegSpecial) (phi z : ℝ) :
+    @determine_cases ℝ (realNumX μ S) 0 phi z 0 phi z = 111 ∧ (111 : Nat) ∈ nanIds ∧ (111 : Nat) ∉ caseIds :=
+  ⟨determine_cases_111 μ S phi z, by decide, by decide⟩
 
 end MagpyVerif.C06
